@@ -105,4 +105,7 @@ def isSciRepr (s : Str) : Bool :=
    | [] => false) &&
   (match s with | '+' :: _ => false | _ => true)
 
+/-- a digit other than `0` -/
+def nz (c : Char) : Bool := digitVal c != 0
+
 end CR.XmlNum
